@@ -116,6 +116,11 @@ def conversion(args):
     else:
         t4_output_filename = Path(args.input).with_suffix('.t4')
 
+    if t4_output_filename.resolve() == Path(args.input).resolve():
+        msg = (f'the output file {t4_output_filename} is the input file '
+               'itself; use the -o option to choose another name')
+        raise ValueError(msg)
+
     try:
         mcnp_parser = mip.MIP(args.input, encoding=args.encoding)
     except UnicodeError:
